@@ -51,10 +51,12 @@ pub open spec fn retained_as(r: Seq<RetainedMessage>, kept: Seq<Message>, base: 
 
 impl Partition {
     // Partition::add_persisted_segment (partitions/segments.rs): Segment::create + persist + push + sort_by start_offset.
-    // Under contract in unit `retention`; here its effect for a start offset above every existing one.
+    // Proved in unit `retention` ([C14.off.add.last], [C14.shape.add.err], [C14.shape.add.frame], [C14.off.create.start]):
+    // for a SORTED vector and a start offset above every existing one the new empty open segment lands last, prefix unchanged.
     #[verifier::external_body]
     pub fn add_persisted_segment(&mut self, start_offset: u64) -> (r: Result<(), IggyError>)
         requires forall|i: int| 0 <= i < old(self).segments@.len() ==> (#[trigger] old(self).segments@[i]).start_offset < start_offset,
+            segs_sorted_strict(old(self).segments@),
         ensures
             r is Err ==> *final(self) == *old(self),
             r is Ok ==> {
